@@ -53,9 +53,6 @@ MUTANTS = [
      "'    if (lockAndData->has_value()) lockAndData->value().get().dznPort.out.' \\", 0),   # placeholder (no-op), replaced below
     ('c08-list-of-set-in-overview', ['C08'], 'adv_shell/port_selection.py',
      "explicit_ports.append(f'MTS={sorted(mts_explicit_ports)}')", "explicit_ports.append(f'MTS={list(mts_explicit_ports)}')", 0),
-    ('c08-unsorted-unmatched-names-in-error', ['C08'], 'adv_shell/port_selection.py',
-     "raise AdvShellError(f'Configured {label} ports {sorted(unmatched)} not matched')",
-     "raise AdvShellError(f'Configured {label} ports {list(unmatched)} not matched')", 0),
     ('c09-dispatcher-not-put-into-locator', ['C09'], PROC, "               f'.set({facilities.dispatcher.name})))',", "               '))',", 0),
     ('c09-create-check-inverted', ['C09'], PROC,
      "'if (locator.try_get<dzn::pump>() != nullptr) throw std::runtime_error('", "'if (locator.try_get<dzn::pump>() == nullptr) throw std::runtime_error('", 0),
@@ -96,6 +93,10 @@ REFACTORS = [
     ('r-select-inside-dispatcher-closure', ['C04', 'C11', 'C02'], PROC,
      "[f'const auto r = {port.accessor_target}.Arbitered().in.{event.name}({call_arguments});',\n         f'if (r == {fqn_reply}) {port.accessor_target}.Select(identifier);',\n         'return r;'])",
      "[f'return dzn::shell(m_dispatcher, [&] {{',\n         f'    const auto r = m_encapsulee.{port.name}.in.{event.name}({call_arguments});',\n         f'    if (r == {fqn_reply}) {port.accessor_target}.Select(identifier);',\n         '    return r;',\n         '});'])", 0),
+    # an error message that embeds an unordered set does not touch the property (it speaks about generated files)
+    ('r-unsorted-names-in-an-error-message', ['C08'], 'adv_shell/port_selection.py',
+     "raise AdvShellError(f'Configured {label} ports {sorted(unmatched)} not matched')",
+     "raise AdvShellError(f'Configured {label} ports {list(unmatched)} not matched')", 0),
     ('r-support-header-comment', ['C12', 'C08'], 'support_files/ilog.py', 'Description: interfaces for logging informationals, warnings and errors.', 'Description: logging interfaces (info, warning, error).', 0),
     ('r-overview-wording', ['C08', 'C12'], 'adv_shell/__init__.py', "'User configuration:',", "'Configuration given by the user:',", 0),
     ('r-process-resets-in-place', ['C16'], 'json_ast.py', "        self._file_contents = FileContents()\n        root = parse_root(self.ast)",
